@@ -52,6 +52,8 @@ impl MultiProgress {
         let mut state = self.state.write().unwrap();
         state.draw_target.disconnect(Instant::now());
         state.draw_target = target;
+        // The lines of finished bars that were left on the old target stay there
+        state.zombie_lines_count = VisualLines::default();
     }
 
     /// Set whether we should try to move the cursor when possible instead of clearing lines.
